@@ -289,7 +289,7 @@ class FakeSocket:
         end = min(end, length - 1)
         return start, end + 1
 
-    def _scan(self, keys, cursor, *args):
+    def _scan(self, keys, cursor, *args, allow_type=False):
         """
         This is the basis of most of the ``scan`` methods.
 
@@ -302,6 +302,8 @@ class FakeSocket:
         returned exactly once.
         """
         cursor = int(cursor)
+        if cursor < 0:
+            raise SimpleError(msgs.INVALID_CURSOR_MSG)
         pattern = None
         type = None
         count = 10
@@ -314,7 +316,7 @@ class FakeSocket:
                 count = Int.decode(args[i + 1])
                 if count <= 0:
                     raise SimpleError(msgs.SYNTAX_ERROR_MSG)
-            elif casematch(args[i], b'type'):
+            elif casematch(args[i], b'type') and allow_type:
                 type = args[i + 1]
             else:
                 raise SimpleError(msgs.SYNTAX_ERROR_MSG)
@@ -517,7 +519,7 @@ class FakeSocket:
 
     @command((Int,), (bytes, bytes))
     def scan(self, cursor, *args):
-        return self._scan(list(self._db), cursor, *args)
+        return self._scan(list(self._db), cursor, *args, allow_type=True)
 
     def _lookup_key(self, key, pattern):
         """Python implementation of lookupKeyByPattern from redis"""
